@@ -121,6 +121,12 @@ def collect():
     f['b2_upload_gets_fresh_url_each_try'] = all(
         isinstance(pyast.find_func(B, m).body[0], ast.Assign)
         and pyast.unparse(pyast.find_func(B, m).body[0].value) == 'await self._get_upload_url_token()' for m in ('upload', 'upload_stream'))
+    g = pyast.find_func(B, '_get_upload_url_token')
+    rets = [n for n in ast.walk(g) if isinstance(n, ast.Return)]
+    stores = [n for n in ast.walk(g) if isinstance(n, ast.Attribute) and isinstance(n.ctx, (ast.Store, ast.Del)) and pyast.unparse(n.value) == 'self']
+    # every call asks the service for a new upload URL / token pair: nothing is kept on the instance, the only return is the fresh pair
+    f['b2_upload_url_not_cached'] = (len(rets) == 1 and g.body[-1] is rets[0] and not stores and 'b2_get_upload_url' in pyast.unparse(g)
+                                     and pyast.unparse(rets[0].value) == "(decoded['uploadUrl'], decoded['authorizationToken'])")
     t, h = _bare_handler(pyast.find_func(B, 'download_stream'))
     f['b2_download_stream_rewinds'] = h == ['stream.seek(0)', 'raise']
     f['b2_download_stream_truncates'] = pyast.unparse(t.body[0]) == 'stream.truncate(content_length)' and isinstance(t.body[1], ast.AsyncFor)
